@@ -41,13 +41,13 @@ func (v Val) Canon() any {
 	switch v.T {
 	case "bool":
 		return v.B
-	case "int2", "int4", "int8", "oid", "date", "timestamp":
+	case "int2", "int4", "int8", "oid", "date", "timestamp", "timestamptz":
 		return v.I
 	case "float4":
 		return math.Float32frombits(uint32(v.F))
 	case "float8":
 		return math.Float64frombits(v.F)
-	case "text", "varchar", "name", "json":
+	case "text", "varchar", "name", "json", "jsonb", "bpchar":
 		return v.S
 	case "bytea":
 		if v.Y == nil {
@@ -108,7 +108,7 @@ func (v Val) Go() any {
 			return (*[]byte)(nil)
 		case "uuid":
 			return (*[16]byte)(nil)
-		case "date", "timestamp":
+		case "date", "timestamp", "timestamptz":
 			return (*time.Time)(nil)
 		}
 		return (*string)(nil)
@@ -134,6 +134,8 @@ func (v Val) Go() any {
 			return pgtype.Date{}
 		case "timestamp":
 			return pgtype.Timestamp{}
+		case "timestamptz":
+			return pgtype.Timestamptz{}
 		case "bytea":
 			return (*[]byte)(nil)
 		}
@@ -210,7 +212,7 @@ func (v Val) Go() any {
 			return pgtype.Float8{Float64: x, Valid: true}
 		}
 		return x
-	case "text", "varchar", "name", "json":
+	case "text", "varchar", "name", "json", "jsonb", "bpchar":
 		x := c.(string)
 		switch v.Rep {
 		case "ptr":
@@ -252,6 +254,15 @@ func (v Val) Go() any {
 			return pgtype.Timestamp{Time: x, Valid: true}
 		}
 		return x
+	case "timestamptz":
+		x := tsOf(c.(int64))
+		switch v.Rep {
+		case "ptr":
+			return &x
+		case "pgtype":
+			return pgtype.Timestamptz{Time: x, Valid: true}
+		}
+		return x
 	}
 	panic("script.Val.Go: type " + v.T)
 }
@@ -282,7 +293,7 @@ func CanonFromGo(typ string, g any) (any, error) {
 	case string:
 		return x, nil
 	case []byte:
-		if typ == "json" || typ == "text" || typ == "varchar" || typ == "name" {
+		if typ == "json" || typ == "text" || typ == "varchar" || typ == "name" || typ == "bpchar" || typ == "jsonb" {
 			return string(x), nil
 		}
 		return append([]byte{}, x...), nil
@@ -323,7 +334,16 @@ func (e *ErrSpec) Build() error {
 	if e == nil {
 		return nil
 	}
+	all := e.BuildAll()
+	return all[len(all)-1]
+}
+
+// BuildAll returns the error after 0, 1, ... len(Layers) decorations; every
+// later element wraps the previous one (the values are shared, as they are
+// when a program decorates a sentinel error).
+func (e *ErrSpec) BuildAll() []error {
 	err := errors.New(e.Base)
+	all := []error{err}
 	for _, l := range e.Layers {
 		switch l.K {
 		case "code":
@@ -345,8 +365,9 @@ func (e *ErrSpec) Build() error {
 		default:
 			panic("ErrSpec layer " + l.K)
 		}
+		all = append(all, err)
 	}
-	return err
+	return all
 }
 
 // ExpErr is what an ErrorResponse must carry for an ErrSpec, computed by an
